@@ -513,6 +513,47 @@ def changed_anchor_files(prop_id: str) -> list[str]:
     return out
 
 
+def start_coverage(tag: str):
+    """VERIF_COVERAGE=1: record which source lines of the implementation a check executes
+    (sys.monitoring, each line reported once, so the overhead is negligible); the result goes to
+    scratch/coverage/<tag>.json and is summarised by tools/coverage_report.py.  Diagnostic only:
+    it never influences a verdict."""
+    if not os.environ.get("VERIF_COVERAGE") or not hasattr(sys, "monitoring"):
+        return
+    import atexit
+
+    mon = sys.monitoring
+    tool = mon.COVERAGE_ID
+    try:
+        mon.use_tool_id(tool, "gv-cov")
+    except ValueError:
+        return
+    hits: set = set()
+    root = os.path.realpath(REPO_SRC)
+
+    def on_line(code, line):
+        fn = code.co_filename
+        if fn.startswith(root):
+            hits.add((fn[len(root) + 1:], line))
+        return mon.DISABLE
+
+    mon.register_callback(tool, mon.events.LINE, on_line)
+    mon.set_events(tool, mon.events.LINE)
+
+    def dump():
+        d = os.path.join(VERIF, "scratch", "coverage")
+        os.makedirs(d, exist_ok=True)
+        out: dict = {}
+        for fn, ln in hits:
+            out.setdefault(fn, []).append(ln)
+        for fn in out:
+            out[fn].sort()
+        with open(os.path.join(d, tag + ".json"), "w") as f:
+            json.dump(out, f)
+
+    atexit.register(dump)
+
+
 def import_ginjax():
     """import ginjax from the current working tree"""
     if REPO_SRC not in sys.path:
